@@ -667,6 +667,7 @@ def expected_follower(spec, leader0, follower0, leader_now) -> Optional[np.ndarr
     if spec["type"] == "symmetry":
         return apply(m_mirror(spec["normal"], spec["origin"]), ln)
     phi, r0, r1 = azimuth_change(spec["axis"], spec["origin"], l0, ln)
-    if r1 < 1e-3 * r0 or abs(abs(phi) - math.pi) < 1e-3:
-        return None  # on the axis / half a turn: the angle the leader turned is not defined
+    if r1 < 1e-3 * r0:
+        return None  # leader on the axis: the angle it turned is not defined
+    # at half a turn the sense is irrelevant (+pi and -pi are the same rotation); next to it the azimuth still defines it
     return apply(m_rotate(phi, spec["axis"], spec["origin"]), f0)
